@@ -264,7 +264,7 @@ def build_real(case):
                 if m in ff.modifications and rnd.random() < 0.6:
                     mods.append((ri, m))
     mol, truth = atomistic.build_peptide(ff, seq, rnd, mods=mods, scramble_ptm_names=case['scramble'], junk=case['junk'])
-    rep = RepairGraph(include_graph=False).run_molecule(mol)
+    rep = util.shared(RepairGraph, include_graph=False).run_molecule(mol)
     return rep, truth, seq, mods
 
 
@@ -280,7 +280,7 @@ def monitor(mol, planted_ok, b):
     _STATE['calls'] = []
     cap.clear()
     try:
-        out = CM.CanonicalizeModifications().run_molecule(mol)
+        out = util.shared(CM.CanonicalizeModifications).run_molecule(mol)
     except Exception as e:
         import traceback
         _STATE['calls'] = None
